@@ -87,13 +87,13 @@ Proof. exact fp3_moment0. Qed.
 Print Assumptions C01_fp3_conserves.
 
 (** the whole bunch-major array as FokkerPlanckMap::apply walks it: every column of every bunch.
-    Each column is restricted to its own [n] cells ([clip K n]): the flat array goes on with the next
+    Each column is restricted to its own [n] cells ([colclip K n]): the flat array goes on with the next
     column, so a support hypothesis on the unrestricted function [s => D (c*n+s)] - as an earlier
     version of this theorem had it - would force all other columns to vanish. *)
 Theorem C01_fp3_conserves_grid :
   forall (K : Fld) (e1 delta : K) (p : Z -> K) (v n le m xs nb : Z) (D : Z -> K),
     2 <= n < 2 ^ 32 -> 0 < xs -> 0 <= nb -> uniform K delta p -> delta <> f0 ->
-    (forall c, 0 <= c < nb * xs -> supp (clip K n (fun s => D (c * n + s))) 2 (n - 2)) ->
+    (forall c, 0 <= c < nb * xs -> supp (colclip K n (fun s => D (c * n + s))) 2 (n - 2)) ->
     sumZ 0 (Z.to_nat (nb * xs * n)) (fp_apply n xs 3 (H3 K e1 delta p v n le m) D) =
     sumZ 0 (Z.to_nat (nb * xs * n)) D.
 Proof. exact fp3_conserves_grid_cols. Qed.
@@ -129,7 +129,7 @@ Print Assumptions C01_fp4_defect.
 Theorem C01_fp4_defect_grid :
   forall (K : Fld) (e1 delta : K) (p : Z -> K) (v n le m xs nb : Z) (D : Z -> K),
     dom4 n le m -> uniform K delta p -> delta <> f0 -> 5 <= m <= n - 5 -> 0 < xs -> 0 <= nb ->
-    (forall c, 0 <= c < nb * xs -> supp (clip K n (fun s => D (c * n + s))) 3 (n - 3)) ->
+    (forall c, 0 <= c < nb * xs -> supp (colclip K n (fun s => D (c * n + s))) 3 (n - 3)) ->
     sumZ 0 (Z.to_nat (nb * xs * n)) (fp_apply n xs 4 (H4 K e1 delta p v n le m) D) =
     fadd (sumZ 0 (Z.to_nat (nb * xs * n)) D)
          (fmul (opt (has_damp v) e1)
@@ -165,11 +165,11 @@ Qed.
     EVERY column (rows 4..7) meets [supp (clip ...) 3 (n-3)] (hence also 2 (n-2)) for every column *)
 Example C01_fp_grid_hypotheses_satisfiable :
   let D := fun i : Z => if ((3 <=? i mod 12) && (i mod 12 <? 9) && (0 <=? i) && (i <? 48))%bool then Qcz (1 + i) else 0%Qc in
-  (forall c, 0 <= c < 2 * 2 -> supp (K:=QcF) (clip QcF 12 (fun s => D (c * 12 + s))) 3 (12 - 3)) /\
+  (forall c, 0 <= c < 2 * 2 -> supp (K:=QcF) (colclip QcF 12 (fun s => D (c * 12 + s))) 3 (12 - 3)) /\
   (forall c, 0 <= c < 2 * 2 -> D (c * 12 + 5) <> 0%Qc).
 Proof.
   cbv zeta. split.
-  - intros c Hc i Hi. unfold clip.
+  - intros c Hc i Hi. unfold colclip.
     destruct (Z.leb_spec 0 i); destruct (Z.ltb_spec i 12); cbn [andb]; try reflexivity.
     replace ((c * 12 + i) mod 12) with i by (rewrite Z.add_comm, Z.mod_add by lia; symmetry; apply Z.mod_small; lia).
     destruct (Z.leb_spec 3 i); destruct (Z.ltb_spec i 9); cbn [andb]; try reflexivity; lia.
